@@ -97,6 +97,24 @@ def near_miss_pair(rng, maxs=4, maxr=8, sigma=SIGMA):
         b.finals.pop(rng.randrange(len(b.finals)))
     return (a, b) if rng.random() < 0.7 else (b, a)
 
+SIGMA_U = [(0, 0), (1, 0), (2, 1), (3, 2), (5, 1), (6, 1)]     # unary-rich: a/0 b/0 g/1 f/2 u/1 v/1
+
+def split_pair(rng, maxs=4, maxr=9, sigma=SIGMA_U, keep=0.55):
+    """A random (cycles likely: unary-rich alphabet); B := A with every state split into two copies and every rule distributed at random over
+    the copies. L(B) <= L(A); A <= B holds or fails depending on which combinations survive, and deciding it needs unions of copies
+    (no single rule of B covers a rule of A pointwise) under cyclic sub-goals: the shape the downward checkers' caches are sensitive to."""
+    a = rand_ta(rng, rng.randint(2, maxs), rng.randint(4, maxr), sigma=sigma, pfinal=0.4, leafbias=0.2)
+    rules = []
+    for (f, p, cs) in a.rules:
+        combos = list(itertools.product((0, 1), repeat=len(cs) + 1))
+        chosen = [c for c in combos if rng.random() < keep] or [rng.choice(combos)]
+        for c in chosen:
+            rules.append((f, 2 * p + c[0], tuple(2 * x + ci for x, ci in zip(cs, c[1:]))))
+    fin = []
+    for q in a.finals:
+        fin += [2 * q + i for i in (0, 1) if rng.random() < 0.8] or [2 * q]
+    return a, TA(fin, rules)
+
 def permute_states(rng, a, extra=0, sparse=False):
     st = sorted(a.states())
     if sparse:
